@@ -58,7 +58,7 @@ def get_angle_spec_from_float(angle: float, tol: float = 1e-4) -> List[Tuple[int
     # Check if some of the (n, d)'s can be simplified, i.e. if `n = b * 2 ^ m` for some `m` and `b`
     for i, (n, d) in enumerate(nds):
         n_new, d_new = n, d
-        while (n_new % 2) == 0:
+        while (n_new % 2) == 0 and d_new > 0:
             n_new, d_new = (int(n_new / 2), d_new - 1)
         nds[i] = (n_new, d_new)
     return nds
